@@ -490,4 +490,200 @@ Proof.
       apply IH; [apply irun_IGInv; auto|apply irun_LInv; auto|lia].
 Qed.
 
+(** ** after the early-exit signal (or exhaustion) the gate is closed for good, and what is left
+    to do no longer depends on the source: the reader, if any, finishes its chunk; everybody
+    else processes what it holds and leaves *)
+Definition jpot (w : iworker) : nat :=
+  match iph w with
+  | IReady => 2
+  | ITicket _ => 1
+  | IReading _ got => 5 + 6 * icsize w - got
+  | IHolding _ 0 => 3
+  | IHolding _ (S k) => 8 + k
+  | IFound => 1
+  | IDone => 0
+  | IDead => 0
+  end.
+Definition jsum (l : list iworker) : nat := sum_list (map jpot l).
+Definition jphi (s : isys) : nat := 9 * (maxt - length (iws s)) + rank (isph s) + jsum (iws s).
+
+Lemma jsum_app a b : jsum (a ++ b) = jsum a + jsum b.
+Proof. unfold jsum. rewrite map_app. apply sum_list_app. Qed.
+Lemma jsum_cons w l : jsum (w :: l) = jpot w + jsum l.
+Proof. reflexivity. Qed.
+
+Lemma iwstep_closed c f sk l1 w l2 c' g' f' sk' w' :
+  iwstep c Closed f sk w = (c', g', f', sk', w') ->
+  Split Closed f sk l1 w l2 ->
+  g' = Closed /\ (iph w <> IDone -> iph w <> IDead -> jpot w' < jpot w) /\ (jpot w' <= jpot w).
+Proof.
+  intros Hs HS.
+  pose proof (S_rdw HS) as Hrd. pose proof (IW_cs (S_ww HS)) as Hcs.
+  unfold MachineIter.iwstep in Hs.
+  destruct w as [cs p sn ab pl]; cbn [iph icsize iseen iaband ipulls setph] in *.
+  unfold jpot; cbn [iph icsize].
+  destruct p as [|t|t got|b k| | |].
+  - injection Hs as <- <- <- <- <-. cbn [iph icsize setph]. repeat split; auto; lia.
+  - injection Hs as <- <- <- <- <-. cbn [iph icsize setph]. repeat split; auto; lia.
+  - destruct (Hrd t got eq_refl) as [Hf Hgot]. cbn [icsize] in Hgot.
+    destruct ((got <? cs) && (f <? srclen)) eqn:Eb.
+    + apply andb_true_iff in Eb. destruct Eb as [Eb1 Eb2]. apply Nat.ltb_lt in Eb1.
+      injection Hs as <- <- <- <- <-. cbn [iph icsize setph]. repeat split; auto; lia.
+    + injection Hs as <- <- <- <- <-. cbn [iph icsize setph]. repeat split; auto; destruct got; lia.
+  - destruct k as [|k].
+    + injection Hs as <- <- <- <- <-. cbn [iph icsize setph]. repeat split; auto; lia.
+    + destruct (panics b); [injection Hs as <- <- <- <- <-; cbn [iph icsize]; repeat split; auto; lia|].
+      destruct (stop b); [injection Hs as <- <- <- <- <-; cbn [iph icsize]; repeat split; auto; lia|].
+      destruct k as [|k]; injection Hs as <- <- <- <- <-; cbn [iph icsize]; repeat split; auto; lia.
+  - injection Hs as <- <- <- <- <-. cbn [iph icsize setph]. repeat split; auto; lia.
+  - injection Hs as <- <- <- <- <-. cbn [iph icsize setph]. repeat split; auto; congruence.
+  - injection Hs as <- <- <- <- <-. cbn [iph icsize setph]. repeat split; auto; congruence.
+Qed.
+
+Lemma istep_closed s t : IGInv s -> igate s = Closed ->
+  igate (istep s t) = Closed /\ jphi (istep s t) <= jphi s /\
+  (ienabled s t = true -> jphi (istep s t) < jphi s).
+Proof.
+  intros G Hc. destruct t as [|i].
+  - pose proof (I_sp G) as Hsp. unfold jphi, MachineIter.istep, MachineIter.isstep, ispawn, iset_sph. cbn [ienabled].
+    assert (Hfresh : forall cu, jsum (iws s ++ [ifresh cu]) = jsum (iws s) + 2).
+    { intros cu. rewrite jsum_app, jsum_cons. unfold jpot, ifresh; cbn [iph]. unfold jsum at 2; cbn. lia. }
+    destruct (isph s) as [j| | |] eqn:Ep.
+    + destruct (dospawn (length (iws s)) (ihas_more srclen known s)) eqn:Ed.
+      * apply dospawn_bound in Ed. cbn [ictr igate ifront iws isph]. rewrite app_length, Hfresh. cbn [length].
+        split; [exact Hc|]. destruct j as [|[|j]]; cbn [rank]; split; intros; lia.
+      * cbn [ictr igate ifront iws isph rank]. split; [exact Hc|]. split; intros; lia.
+    + destruct (nextc (length (iws s)) (ihas_more srclen known s)); cbn [ictr igate ifront iws isph rank];
+        (split; [exact Hc|]); split; intros; lia.
+    + cbn [ictr igate ifront iws isph]. rewrite app_length, Hfresh. cbn [length rank].
+      split; [exact Hc|]. split; intros; lia.
+    + rewrite Ep. split; [exact Hc|]. split; [lia|discriminate].
+  - unfold MachineIter.istep. cbn [ienabled].
+    destruct (nth_error (iws s) i) as [w|] eqn:En; [|split; [exact Hc|split; [lia|discriminate]]].
+    apply nth_error_split in En. destruct En as (l1 & l2 & El & Hi). subst i.
+    destruct s as [c g f sk l p cu]; cbn [ictr igate ifront iskipped iws isph icur] in *. subst l g.
+    destruct (iwstep c Closed f sk w) as [[[[c' g'] f'] sk'] w'] eqn:Ew.
+    rewrite upd_split. apply IGInv_Split in G; auto. destruct G as (GS & _ & Hsp).
+    assert (HD : g' = Closed /\ (iph w <> IDone -> iph w <> IDead -> jpot w' < jpot w) /\ (jpot w' <= jpot w)).
+    { eapply iwstep_closed; eauto. }
+    destruct HD as (Hg & Hlt & Hle).
+    unfold jphi; cbn [ictr igate ifront iws isph]. rewrite !jsum_app, !jsum_cons, !app_length. cbn [length].
+    split; [exact Hg|]. split; [lia|].
+    intros He. assert (jpot w' < jpot w); [|lia].
+    apply Hlt; intros E; rewrite E in He; discriminate.
+Qed.
+
+(** C10 over iterator sources: once the gate is closed, no schedule contains more than [jphi]
+    effective steps -- a bound in the number of threads and their chunk sizes only *)
+Theorem ieffective_after_close s sched : IGInv s -> igate s = Closed ->
+  ieffective s sched + jphi (irun s sched) <= jphi s.
+Proof.
+  revert s; induction sched as [|t r IH]; intros s G Hc; simpl; [lia|].
+  destruct (istep_closed t G Hc) as (Hc' & Hle & Hlt).
+  specialize (IH (istep s t) (stepG t G) Hc').
+  destruct (ienabled s t) eqn:E.
+  - specialize (Hlt eq_refl). lia.
+  - lia.
+Qed.
+
+(** a worker never holds more than its chunk size *)
+Definition HB (w : iworker) : Prop := forall b k, iph w = IHolding b k -> k <= icsize w.
+
+Lemma iwstep_HB c g f sk l1 w l2 c' g' f' sk' w' :
+  iwstep c g f sk w = (c', g', f', sk', w') -> Split g f sk l1 w l2 -> HB w -> HB w'.
+Proof.
+  intros Hs HS Hb. pose proof (S_rdw HS) as Hrd.
+  unfold MachineIter.iwstep in Hs. unfold HB in *.
+  destruct w as [cs p sn ab pl]; cbn [iph icsize iseen iaband ipulls setph] in *.
+  destruct p as [|t|t got|b k| | |].
+  - injection Hs as <- <- <- <- <-. cbn [iph icsize setph]. discriminate.
+  - destruct g as [n| |]; [destruct ordered; [destruct (n =? t)|]| |];
+      injection Hs as <- <- <- <- <-; cbn [iph icsize setph]; discriminate.
+  - destruct (Hrd t got eq_refl) as [Hf Hgot]. cbn [icsize] in Hgot.
+    destruct ((got <? cs) && (f <? srclen)).
+    + injection Hs as <- <- <- <- <-. cbn [iph icsize setph]. discriminate.
+    + injection Hs as <- <- <- <- <-. cbn [iph icsize setph]. intros b k [= <- <-]. exact Hgot.
+  - specialize (Hb b k eq_refl). destruct k as [|k].
+    + injection Hs as <- <- <- <- <-. cbn [iph icsize setph]. discriminate.
+    + destruct (panics b); [injection Hs as <- <- <- <- <-; cbn [iph icsize]; discriminate|].
+      destruct (stop b); [injection Hs as <- <- <- <- <-; cbn [iph icsize]; discriminate|].
+      destruct k as [|k]; injection Hs as <- <- <- <- <-; cbn [iph icsize]; [discriminate|].
+      intros b' k' [= <- <-]. lia.
+  - injection Hs as <- <- <- <- <-. cbn [iph icsize setph]. discriminate.
+  - injection Hs as <- <- <- <- <-. cbn [iph icsize setph]. discriminate.
+  - injection Hs as <- <- <- <- <-. cbn [iph icsize setph]. discriminate.
+Qed.
+
+Lemma istep_HB s t : IGInv s -> Forall HB (iws s) -> Forall HB (iws (istep s t)).
+Proof.
+  intros G H. destruct t as [|i].
+  - unfold MachineIter.istep, MachineIter.isstep, ispawn, iset_sph.
+    assert (Hf : forall cu, Forall HB (iws s ++ [ifresh cu])).
+    { intros cu. apply Forall_app. split; auto. constructor; [|constructor]. intros b k E. discriminate E. }
+    destruct (isph s); [destruct (dospawn _ _)|destruct (nextc _ _)| |]; cbn [iws]; auto.
+  - unfold MachineIter.istep.
+    destruct (nth_error (iws s) i) as [w|] eqn:En; [|exact H].
+    apply nth_error_split in En. destruct En as (l1 & l2 & El & Hi). subst i.
+    destruct s as [c g f sk l p cu]; cbn [ictr igate ifront iskipped iws isph icur] in *. subst l.
+    destruct (iwstep c g f sk w) as [[[[c' g'] f'] sk'] w'] eqn:Ew.
+    rewrite upd_split. apply IGInv_Split in G; auto. destruct G as (GS & _ & _).
+    cbn [iws]. apply Forall_app in H. destruct H as [H1 H2]. inversion H2; subst.
+    apply Forall_app. split; auto. constructor; auto. eapply iwstep_HB; eauto.
+Qed.
+
+Lemma irun_HB s sched : IGInv s -> Forall HB (iws s) -> Forall HB (iws (irun s sched)).
+Proof.
+  revert s; induction sched as [|t r IH]; intros s G H; simpl; auto.
+  apply IH; [apply stepG; auto|apply istep_HB; auto].
+Qed.
+
+(** the bound mentions the number of threads and their chunk sizes, not the source *)
+Theorem jphi_bound s : IGInv s -> Forall HB (iws s) ->
+  jphi s <= 9 * maxt + 3 + sum_list (map (fun w => 6 * icsize w + 8) (iws s)).
+Proof.
+  intros G Hb. unfold jphi.
+  assert (jsum (iws s) <= sum_list (map (fun w => 6 * icsize w + 8) (iws s))).
+  { unfold jsum, sum_list. induction Hb as [|w l Hw _ IH]; cbn [map fold_right]; [lia|].
+    assert (jpot w <= 6 * icsize w + 8); [|lia].
+    unfold jpot. unfold HB in Hw. destruct (iph w) as [| |t got|b [|k]| | |] eqn:E; try lia.
+    specialize (Hw b (S k) eq_refl). lia. }
+  assert (rank (isph s) <= 3) by (destruct (isph s); cbn; lia).
+  lia.
+Qed.
+
+(** the early-exit signal closes the gate, for good *)
+Definition SkInv (s : isys) : Prop := iskipped s = true -> igate s = Closed.
+
+Lemma iwstep_sk_closed c g f sk w c' g' f' sk' w' :
+  iwstep c g f sk w = (c', g', f', sk', w') -> (sk = true -> g = Closed) -> (sk' = true -> g' = Closed).
+Proof.
+  unfold MachineIter.iwstep. intros Hs H.
+  destruct (iph w) as [|t|t got|b k| | |].
+  - injection Hs as <- <- <- <- <-. exact H.
+  - destruct g as [n| |]; [destruct ordered; [destruct (n =? t)|]| |];
+      injection Hs as <- <- <- <- <-; intros E; specialize (H E); congruence.
+  - destruct ((got <? icsize w) && (f <? srclen)); [injection Hs as <- <- <- <- <-; exact H|].
+    injection Hs as <- <- <- <- <-. intros E. specialize (H E). subst g. reflexivity.
+  - destruct k as [|k]; [injection Hs as <- <- <- <- <-; exact H|].
+    destruct (panics b); [injection Hs as <- <- <- <- <-; exact H|].
+    destruct (stop b); [injection Hs as <- <- <- <- <-; exact H|].
+    destruct k; injection Hs as <- <- <- <- <-; exact H.
+  - injection Hs as <- <- <- <- <-. reflexivity.
+  - injection Hs as <- <- <- <- <-. exact H.
+  - injection Hs as <- <- <- <- <-. exact H.
+Qed.
+
+Lemma istep_SkInv s t : SkInv s -> SkInv (istep s t).
+Proof.
+  intros H. destruct t as [|i].
+  - unfold SkInv, MachineIter.istep, MachineIter.isstep, ispawn, iset_sph in *.
+    destruct (isph s); [destruct (dospawn _ _)|destruct (nextc _ _)| |]; cbn [iskipped igate]; auto.
+  - unfold MachineIter.istep. destruct (nth_error (iws s) i) as [w|]; [|exact H].
+    destruct (iwstep (ictr s) (igate s) (ifront s) (iskipped s) w) as [[[[c' g'] f'] sk'] w'] eqn:Ew.
+    unfold SkInv in *; cbn [iskipped igate]. eapply iwstep_sk_closed; eauto.
+Qed.
+
+Lemma irun_SkInv s sched : SkInv s -> SkInv (irun s sched).
+Proof. revert s; induction sched as [|t r IH]; intros s H; simpl; auto. apply IH, istep_SkInv, H. Qed.
+
 End TermIter.
